@@ -27,7 +27,10 @@ Inductive case :=
     context), Unregister of those processors, Register of [extra] further ones, and end spans.
     Observed afterwards: Shutdown calls per processor, whether a fresh tracer still records,
     error classes of a final ForceFlush and Shutdown. *)
-| CStorm (n extra : N) (shutdowns : list N) (fresh_records : bool) (flush_err shutdown_err : err).
+| CStorm (n extra : N) (shutdowns : list N) (fresh_records : bool) (flush_err shutdown_err : err)
+(** one round of concurrent Shutdown / ForceFlush callers on a fresh LoggerProvider / MeterProvider *)
+| CStormL (procs : list lk) (pshut xshut : list N) (shut_errs flush_errs : list err)
+| CStormM (readers : list rk) (xshut : list N) (shut_errs flush_errs collect_after : list err).
 
 (** Exporter-level calls are compared as multisets (they may come from worker goroutines). *)
 Definition callk_rank (k : callk) : nat :=
@@ -80,25 +83,42 @@ Definition storm_ok (n extra : nat) (shutdowns : list nat) (fresh_records : bool
   forallb (fun c => Nat.leb c 1) (skipn n shutdowns) &&
   negb fresh_records && err_eqb fe ENil && err_eqb se ENil.
 
+(** Trace: a Shutdown whose context is already cancelled is told to every processor, each of which
+    may honour the context: the returned class is nil or the context error, and what the processors
+    finish in the background (drain, export, exporter shutdown) can surface during any later
+    operation.  From that operation on only the error class (against the allowed set), the flag and
+    the processor-level calls are compared. *)
+Fixpoint tmatch (kinds : nat -> pk) (s : tstate) (loose : bool) (ops : list top) (obs : list obs) : bool :=
+  match ops, obs with
+  | [], [] => true
+  | o :: r, ob :: obr =>
+      let '(s', m) := tstep kinds s o in
+      let cancelled := match o with
+                       | TShutdown false => negb (t_shut s) && negb (Nat.eqb (length (t_regs s)) 0)
+                       | _ => false
+                       end in
+      let loose' := loose || cancelled in
+      (if loose'
+       then err_in (o_err ob) (if cancelled then [ENil; ECtx] else [o_err m]) &&
+            Bool.eqb (o_flag m) (o_flag ob) && calls_eqb (o_calls m) (o_calls ob)
+       else obs_eqb m ob) && tmatch kinds s' loose' r obr
+  | _, _ => false
+  end.
+
 Definition check_case (c : case) : list N :=
   match c with
   | CT kinds members ops obs =>
       let ms := map n2 members in
-      let m := trun (kinds_fn kinds) (tinit ms) ops in
-      let run := combine ops obs in
-      flag (Nat.eqb (length ops) (length obs) && obs_list_eqb (map snd m) obs) V_MISMATCH ++
-      (if tspec_ok ms run then []
-       else if t_trigger ms ops && tspec_known ms run then [V_KNOWN 1] else [V_SPECFAIL]) ++
-      flag (tspec_known ms m) V_MODELSPEC
+      flag (tmatch (kinds_fn kinds) (tinit ms) false ops obs) V_MISMATCH ++
+      flag (Nat.eqb (length ops) (length obs) && tspec_ok ms (combine ops obs)) V_SPECFAIL ++
+      flag (tspec_ok ms (trun (kinds_fn kinds) (tinit ms) ops)) V_MODELSPEC
   | CM readers ops obs =>
       match mrun readers ops, obs with
-      | Crash, None => [V_KNOWN 2]                     (* PeriodicReader around a nil exporter *)
-      | Crash, Some _ => [V_MISMATCH]
-      | Ok m, None => [V_MISMATCH; V_SPECFAIL]         (* a crash the model does not have *)
       | Ok m, Some o =>
           flag (mobs_list_match m o) V_MISMATCH ++
           flag (Nat.eqb (length ops) (length o) && mspec_ok readers (combine ops o)) V_SPECFAIL ++
           flag (mspec_ok readers (map (fun x => (fst x, a_obs (snd x))) m)) V_MODELSPEC
+      | _, _ => [V_MISMATCH; V_SPECFAIL]               (* a crash: the model has none *)
       end
   | CL procs ops obs =>
       match lrun procs ops, obs with
@@ -110,6 +130,10 @@ Definition check_case (c : case) : list N :=
       end
   | CStorm n extra sh fr fe se =>
       flag (storm_ok (n2 n) (n2 extra) (map n2 sh) fr fe se) V_SPECFAIL
+  | CStormL procs ps xs se fe =>
+      flag (lstorm_ok procs (map n2 ps) (map n2 xs) se fe) V_SPECFAIL
+  | CStormM readers xs se fe ca =>
+      flag (mstorm_ok readers (map n2 xs) se fe ca) V_SPECFAIL
   end.
 
 Definition run (cs : list case) : list (N * N) := index_from 0 check_case cs.
